@@ -12,7 +12,9 @@ compute for every function definition
   statics   local `static` variables (they are objects named `<function>::<var>`)
   callees   functions of the program that are called or whose address is taken
   exts      external functions (libc / libm) called; a stdio output call carries its stream: `fprintf@stderr`,
-            `fprintf@stdout`, `fprintf@other` (stream argument not one of the three standard objects)
+            `fprintf@stdout`, `fprintf@other` (stream argument not one of the three standard objects);
+            the pseudo-callee `errno@read` = the function READS errno and lets the value influence what it does (see
+            `errno reads` below): a dependence on what EARLIER calls left in that thread-local
 
 Rows `<f>@user` (class `usermut`) are the crystal-array mutators analysed under the assumption that their
 Crystal_Array* argument is not NULL (see `VARIANT analysis` below): the per-ARGUMENT footprint of the exemption clause.
@@ -28,6 +30,14 @@ The points-to analysis is a small flow-sensitive may-analysis over abstract regi
 with field sensitivity and strong updates on singular L/H regions (needed for the copy-then-overwrite idiom
 of Crystal_MakeCopy); everything else is over-approximated.  Interprocedural summaries (parameters written
 through, regions stored into parameters, regions returned) are iterated to a fixpoint.
+
+errno reads.  `errno` is `*__errno_location()`; libc WRITES it on failure (allow-listed), but a library function that READS it depends
+on hidden per-thread state unless the value it reads was produced inside the same call.  Every read is classified:
+  report   the value is handed straight to `strerror` (the text of an error message after a failing libc call)
+  saved    it initialises / is assigned to a local that is used for nothing but `errno = <that local>` (save and restore)
+  cleared  an `errno = <expression without errno>` STATEMENT of an enclosing block precedes it, with no label / case label in between
+           (so every path to the read passes the clearing: what is read was produced by this call)
+  control  anything else: a stale value may decide the result -> pseudo-callee `errno@read` in `exts`, outside every allow-list
 
 Usage:  footprint.py <build dir with config.h> <out Lean file> <out json>      (env VERIF_REPO)
 The Lean file defines XrlSched.Gen.{fns, …Entries, localeProtocols}; see lean-sched/XrlSched/Hand/Footprint.lean.
@@ -159,6 +169,7 @@ class FnInfo:
         self.locale_ops = []     # extracted setlocale protocol
         self.locale_complex = False
         self.assume = None       # VARIANT rows: indices of the pointer parameters assumed non-NULL on entry
+        self.errno_reads = {}    # class (report / saved / cleared / control) -> number of reads of errno
 
 class TU:
     def __init__(self, path, ast):
@@ -399,6 +410,7 @@ class FnWalk:
         self.snapshot()
         f.sum.ret |= self.ret_exp
         self.extract_locale()
+        self.errno_scan()
 
     def snapshot(self):
         """export the summaries as they stand at a return point (or at the end of the body)"""
@@ -801,6 +813,93 @@ class FnWalk:
         else:
             self.val(n)
 
+    # ---- reads of errno ---------------------------------------------------------------------------
+    @classmethod
+    def is_errno(cls, n):
+        """`n` denotes errno: *__errno_location() (glibc), *__error() / *_errno() elsewhere"""
+        y = cls._strip(n)
+        if kind(y) != 'UnaryOperator' or y.get('opcode') != '*': return False
+        c = cls._strip(inner(y)[0])
+        if kind(c) != 'CallExpr': return False
+        cal = cls._strip(inner(c)[0])
+        return kind(cal) == 'DeclRefExpr' and cal.get('referencedDecl', {}).get('name') in ('__errno_location', '__error', '_errno')
+    def errno_scan(self):
+        reads = []          # (path from the body down to the read)
+        def has_read(n):
+            if kind(n) == 'ImplicitCastExpr' and n.get('castKind') == 'LValueToRValue' and self.is_errno(inner(n)[0]): return True
+            if kind(n) == 'CompoundAssignOperator' and self.is_errno(inner(n)[0]): return True
+            if kind(n) == 'UnaryOperator' and n.get('opcode') in ('++', '--') and self.is_errno(inner(n)[0]): return True
+            return any(has_read(c) for c in inner(n))
+        def walk(n, path):
+            path = path + [n]
+            k = kind(n)
+            if (k == 'ImplicitCastExpr' and n.get('castKind') == 'LValueToRValue' and self.is_errno(inner(n)[0])) or \
+               (k == 'CompoundAssignOperator' and self.is_errno(inner(n)[0])) or \
+               (k == 'UnaryOperator' and n.get('opcode') in ('++', '--') and self.is_errno(inner(n)[0])) or \
+               (k == 'UnaryOperator' and n.get('opcode') == '&' and self.is_errno(inner(n)[0])):       # &errno escapes: whoever gets it may read it
+                reads.append(path); return
+            for c in inner(n): walk(c, path)
+        walk(self.body(), [])
+        if not reads: self.f.errno_reads = {}; return
+        def is_clear(st):
+            y = self._strip(st, ('ParenExpr',))
+            return kind(y) == 'BinaryOperator' and y.get('opcode') == '=' and self.is_errno(inner(y)[0]) and not has_read(inner(y)[1])
+        def has_label(n):
+            return kind(n) in ('LabelStmt', 'CaseStmt', 'DefaultStmt') or any(has_label(c) for c in inner(n))
+        def cleared(path):
+            for d in range(len(path) - 1):
+                B = path[d]
+                if kind(B) != 'CompoundStmt': continue
+                kids = inner(B); idx = [i for i, c in enumerate(kids) if c is path[d + 1]]
+                if not idx: continue
+                for c in range(idx[0] - 1, -1, -1):
+                    if is_clear(kids[c]):
+                        # every way to the read passes the clearing unless control can enter between the two: a label / case label
+                        if not any(has_label(x) for x in kids[c + 1:idx[0] + 1]): return True
+                        break
+            return False
+        def uses_of(var_id):
+            out = []
+            def w(n, par):
+                if kind(n) == 'DeclRefExpr' and n.get('referencedDecl', {}).get('id') == var_id: out.append(par)
+                for c in inner(n): w(c, [n] + par)
+            w(self.body(), [])
+            return out
+        def saved(path):
+            """the read only initialises / is assigned to a local whose every other use is the right-hand side of `errno = v`"""
+            up = [x for x in reversed(path[:-1]) if kind(x) not in ('ParenExpr', 'ImplicitCastExpr', 'CStyleCastExpr')]
+            if not up: return False
+            p0 = up[0]; vid = None
+            if kind(p0) == 'VarDecl' and p0.get('storageClass') != 'static': vid = p0['id']
+            elif kind(p0) == 'BinaryOperator' and p0.get('opcode') == '=':
+                lhs = self._strip(inner(p0)[0])
+                if kind(lhs) == 'DeclRefExpr' and lhs.get('referencedDecl', {}).get('kind') == 'VarDecl' and lhs['referencedDecl']['id'] not in self.tu.gvars \
+                   and lhs['referencedDecl']['id'] not in self.static_locals: vid = lhs['referencedDecl']['id']
+                if len(up) > 1 and kind(up[1]) not in ('CompoundStmt', 'IfStmt', 'ForStmt', 'WhileStmt', 'DoStmt', 'LabelStmt', 'CaseStmt', 'DefaultStmt', 'SwitchStmt'): return False   # value of the assignment used
+            if vid is None or vid in self.addr_taken: return False
+            for par in uses_of(vid):
+                anc = [x for x in par if kind(x) not in ('ParenExpr', 'ImplicitCastExpr', 'CStyleCastExpr')]
+                if not anc: return False
+                a0 = anc[0]
+                if kind(a0) == 'BinaryOperator' and a0.get('opcode') == '=':
+                    lhs = self._strip(inner(a0)[0])
+                    if kind(lhs) == 'DeclRefExpr' and lhs.get('referencedDecl', {}).get('id') == vid: continue      # v = errno (the save itself)
+                    if self.is_errno(inner(a0)[0]): continue                                                         # errno = v
+                return False
+            return True
+        def reported(path):
+            up = [x for x in reversed(path[:-1]) if kind(x) not in ('ParenExpr', 'ImplicitCastExpr', 'CStyleCastExpr')]
+            if not up or kind(up[0]) != 'CallExpr': return False
+            if kind(path[-1]) != 'ImplicitCastExpr': return False
+            cal = self._strip(inner(up[0])[0])
+            return kind(cal) == 'DeclRefExpr' and cal.get('referencedDecl', {}).get('name') in ('strerror', 'strerror_l', 'strerrorname_np', 'strerrordesc_np')
+        out = {}
+        for path in reads:
+            c = 'report' if reported(path) else 'saved' if saved(path) else 'cleared' if cleared(path) else 'control'
+            out[c] = out.get(c, 0) + 1
+        self.f.errno_reads = out
+        if out.get('control'): self.f.exts.add('errno@read')
+
     # ---- the setlocale protocol -----------------------------------------------------------------
     def extract_locale(self):
         """sequence of setlocale calls of this function in source order: (category, argument, variable receiving the result)"""
@@ -931,7 +1030,32 @@ def emit(an, repo, lean_path, json_path):
     um = [n for n in names if an.fns[n].assume is not None and n[:-len(VARIANT_SUFFIX)] in MUTATORS]
     L.append('/-- the crystal-array mutators analysed under the assumption that their Crystal_Array* argument is NOT NULL (a user array): %s -/' % ' '.join(um))
     L.append('def userMutatorEntries : List Nat := %s' % nat_list(idx[n] for n in um))
+    L.append('-- reads of errno (class: count; `control` = pseudo-callee errno@read in the row): %s' % (' '.join('%s{%s}' % (n, ','.join('%s:%d' % kv for kv in sorted(an.fns[n].errno_reads.items()))) for n in names if an.fns[n].errno_reads) or 'none'))
     L.append('-- functions that call fprintf/fputs/… on stderr (names; cf. `diagSites` of Props/C16.lean): %s' % ' '.join(n for n in names if any(x.endswith('@stderr') for x in an.fns[n].exts)))
+    L.append('')
+    # what every public function lets ESCAPE to its caller: the regions of the returned pointer, of everything stored into escaping heap blocks and of
+    # everything stored through a parameter (error slots, out-parameters, the array handed to a mutator) — `H` = memory allocated during the call
+    esc_rows = []; esc_bad = []
+    for c in ('query', 'alloc', 'error', 'deprecated', 'mutator'):
+        for n in public:
+            if cls[n] != c: continue
+            f = an.fns[n]; ptypes = [qt(p_) for p_ in f.params]
+            ret_ok = not ((set(f.sum.ret) | set(f.sum.hc)) - {'H'})
+            out_ok = not (set().union(*f.sum.pc.values()) - {'H'}) if f.sum.pc else True
+            cw = sorted(i for i in f.sum.pw if i < len(ptypes) and re.search(r'\bconst\b[^*]*\*', ptypes[i]))
+            if not ret_ok or cw or not (out_ok or n == 'xrl_propagate_error'): esc_bad.append(n)
+            esc_rows.append((n, '  ⟨%d, %d, %s, %s, %s, %s⟩' % (idx[n], enc(n), 'true' if '*' in qt(f.node).split('(')[0] else 'false', 'true' if ret_ok else 'false',
+                                                                    'true' if out_ok else 'false', 'true' if cw else 'false'),
+                             'ret=%s heap=%s out=%s const-written=%s' % (','.join(sorted(f.sum.ret)) or '-', ','.join(sorted(f.sum.hc)) or '-',
+                                                                         ';'.join('%d:%s' % (k, ','.join(sorted(v))) for k, v in sorted(f.sum.pc.items())) or '-', cw or '-')))
+    L.append('/-- per public function (order: query, alloc, error, deprecated, mutator entries): ⟨index, name, returns a pointer, the returned object and every heap block')
+    L.append('it reaches are memory allocated during the call and reach nothing else, the same for everything stored through a parameter, writes through a `const T *` parameter⟩ -/')
+    parts = chunks(esc_rows, 50)
+    for i, p in enumerate(parts):
+        L.append('def escapes_%d : List Escape := [' % i)
+        for j, (n, code, com) in enumerate(p): L.append(code + (',' if j < len(p) - 1 else '') + '  -- %s  %s' % (n, com))
+        L.append(']')
+    L.append('def escapes : List Escape := ' + ' ++ '.join('escapes_%d' % i for i in range(len(parts))))
     L.append('')
     protos = [(n, an.fns[n]) for n in names if an.fns[n].locale_ops and an.fns[n].assume is None]
     L.append('/-- setlocale protocol of every function that calls setlocale (source order; `complex` = not straight-line) -/')
@@ -949,10 +1073,11 @@ def emit(an, repo, lean_path, json_path):
                                                  unknown_writes=sorted(an.fns[n].unknown_writes), statics=sorted(an.fns[n].statics),
                                                  callees=sorted(an.fns[n].callees), exts=sorted(an.fns[n].exts),
                                                  param_writes=sorted(an.fns[n].sum.pw), returns=sorted(an.fns[n].sum.ret),
-                                                 locale_ops=an.fns[n].locale_ops, locale_complex=an.fns[n].locale_complex,
+                                                 locale_ops=an.fns[n].locale_ops, locale_complex=an.fns[n].locale_complex, errno_reads=an.fns[n].errno_reads,
                                                  ret=qt(an.fns[n].node).split('(')[0].strip(),
                                                  params=[[p_.get('name', ''), qt(p_)] for p_ in an.fns[n].params]) for n in names},
                 classes=cls, user_mutators=um, undefined_public=undefined, problems=an.problems,
+                escapes={n: com for n, code, com in esc_rows}, escapes_bad=sorted(esc_bad),
                 sha256=hashlib.sha256(txt.encode()).hexdigest())
     json.dump(meta, open(json_path, 'w'), indent=1)
     return meta
@@ -995,6 +1120,12 @@ def selftest(path=None):
         n += 1
         if fn not in an.fns: bad.append('selftest: function %s not found' % fn); continue
         if trans(fn) != exp: bad.append('selftest %s: expected transitive writes %s, extractor reports %s' % (fn, sorted(exp), sorted(trans(fn))))
+    for m in re.finditer(r'EXPECTS ([\w@]+): ret=([\w:,]*) pw=([\d,]*)', src_txt):      # summaries: regions returned (incl. reachable), parameters written through
+        fn, er, ep = m.group(1), sorted(x for x in m.group(2).split(',') if x), sorted(int(x) for x in m.group(3).split(',') if x)
+        n += 1
+        if fn not in an.fns: bad.append('selftest: function %s not found' % fn); continue
+        got = (sorted(set(an.fns[fn].sum.ret) | set(an.fns[fn].sum.hc)), sorted(an.fns[fn].sum.pw))
+        if got != (er, ep): bad.append('selftest %s: expected summary ret=%s pw=%s, extractor reports ret=%s pw=%s' % (fn, er, ep, got[0], got[1]))
     for m in re.finditer(r'EXPECT ([\w@]+): W=([\w:,@]*)', src_txt):
         fn, exp = m.group(1), set(x for x in m.group(2).split(',') if x)
         n += 1
